@@ -341,6 +341,81 @@ def r9_6(ctx, rc):
                    'consults': sorted(derived)}, key=key)
 
 
+def r9_7(ctx, rc):
+    """Ticket discipline: when a guarded counter is incremented in a
+    function, every read of it into a local in that function happens in the
+    same critical section as the increment - otherwise two threads read the
+    same ticket (e.g. the same backup file name) before either increments."""
+    prog = ctx.prog
+    n = 0
+    for cname, tbl in L.GUARDS.items():
+        for m in prog.classes[cname].methods.values():
+            if m.name == '__init__':
+                continue
+            cfg = ctx.E.cfgs.get(m)
+            incs = []
+            reads = []
+            for cn in cfg.nodes:
+                if cn.kind != 'stmt':
+                    continue
+                st = cn.ast
+                if isinstance(st, ast.AugAssign) and isinstance(
+                        st.target, ast.Attribute) and \
+                        st.target.attr in tbl and isinstance(
+                            st.target.value, ast.Name) and \
+                        st.target.value.id == m.self_name:
+                    incs.append((st.target.attr, cn))
+                if isinstance(st, ast.Assign) and isinstance(
+                        st.value, ast.Attribute) and st.value.attr in tbl \
+                        and isinstance(st.value.value, ast.Name) and \
+                        st.value.value.id == m.self_name and all(
+                            isinstance(t, ast.Name) for t in st.targets):
+                    reads.append((st.value.attr, cn))
+            for fld, icn in incs:
+                region = [id(it) for it in icn.with_stack
+                          if ctx.H.lock_of_item(it, m) == (cname, tbl[fld])]
+                for rf, rcn in reads:
+                    if rf != fld:
+                        continue
+                    n += 1
+                    rregion = [id(it) for it in rcn.with_stack
+                               if ctx.H.lock_of_item(it, m) ==
+                               (cname, tbl[fld])]
+                    key = 'ticket %s.%s in %s' % (cname, fld, m.qualname)
+                    if not region or region != rregion:
+                        rc.violation(
+                            'ticket-split | ' + key,
+                            '%s.%s is read into a local in one critical '
+                            'section and incremented in another: two '
+                            'threads can obtain the same value (duplicate '
+                            'backup file name - one backup overwrites the '
+                            'other)' % (cname, fld),
+                            prog.loc(m, rcn.ast), key=key)
+                    else:
+                        rc.ok({'counter': cname + '.' + fld,
+                               'read_and_increment': 'one critical section'},
+                              key=key)
+    if n == 0:
+        raise AnalysisError('no guarded counter found')
+
+
+def r9_8(ctx, rc):
+    """A rejected or failing call releases its directory reservation on
+    every exceptional exit (the typestate rule of C14): a duplicate rejected
+    by the atomic claim must not leave the directory pinned."""
+    from .c14 import r14_1
+    r14_1(ctx, rc, only=('_build_file',))
+
+
+def r9_9(ctx, rc):
+    """Claim / run / finish protocol under concurrency (C08 R8.2, R8.3): a
+    duplicate issued from another thread is rejected atomically and cannot
+    overwrite the owner's record."""
+    from .c08 import r8_2, r8_3
+    r8_2(ctx, rc)
+    r8_3(ctx, rc)
+
+
 RULES = [
     ('R9.1', 'lock-acquisition graph: acyclic, documented order', r9_1),
     ('R9.2', 'no user callback inside a critical section', r9_2),
@@ -349,4 +424,7 @@ RULES = [
     ('R9.5', 'shared directory creation tolerates a concurrent creator',
      r9_5),
     ('R9.6', 'a concurrently created directory keeps an owner', r9_6),
+    ('R9.7', 'guarded counters are read and incremented atomically', r9_7),
+    ('R9.8', 'rejected calls release their directory reservation', r9_8),
+    ('R9.9', 'claim/run/finish protocol is atomic and owner-safe', r9_9),
 ]
